@@ -408,7 +408,7 @@ class C09(Check):
                   'type with a Ptr member - so the source of an assignment may be a handle stored inside the object the target is the last handle of, and the target '
                   'may be a member handle - the counter of an object equals the handles to it in variables plus those inside objects that exist, an object is '
                   'released exactly once, exactly when no such handle is left (the release cascades and stops at an object with another handle), no operation and no '
-                  'walk along the chains accesses a released object; (concurrent) release/counting safety for EVERY '
+                  'walk along the chains accesses a released object, and variables, chains and destroyed objects are those of the counter-free reference object; (concurrent) release/counting safety for EVERY '
                   'schedule of the interleaving machine in which threads owning distinct handles to a common payload copy, assign, swap, modify '
                   '(append / write access only / String::clear), read and drop them, each call split into its atomic increment / decrement-and-test / '
                   'plain read `ref == 1` accesses, plus completion: every schedule that lets each thread finish ends with released <-> no handle left; '
@@ -416,10 +416,14 @@ class C09(Check):
     level_note = ('partial: the concurrent clause is proved for the interleaving model under sequential consistency with the __sync builtins as '
                   'atomic steps (hardware/compiler memory ordering is outside the model). It is tied to the implementation on the schedules actually '
                   'run: baton-passing real threads switched at the scheduling points placed before and after every atomic operation (schedules '
-                  'generated, 2-thread scope exhaustive up to the stated depth); on each of them the harness records the access trace of the real code '
+                  'generated, 2-thread scope exhaustive up to the stated depth). What decides the PROPERTY on these runs is what the text states, read off the end state, '
+                  'the allocation ledger and the sanitizers: contents of every handle against the value-semantics Spec, live payload blocks = distinct payloads the live '
+                  'handles refer to, nothing left allocated after the last handle, no use after free / double free. In addition, as a check of the CORRESPONDENCE with the '
+                  'interleaving machine the theorems are about (its failure is reported as no-failing-input-found, never as a failing input of the property), the harness records the access trace of the real code '
                   '(atomic increment/decrement with the value returned, allocation and release of a payload block, copy out of the old payload, in-place '
                   'modification with the resulting contents, and the counter as a write access is entered) and the extracted RcConc.replay must accept it '
-                  'event by event (kind and result), else the case fails. NOT observed: the plain reads of `ref` in front of an atomic operation and the '
+                  'event by event (kind and result); a rejected trace means the implementation is not the modelled machine (e.g. it skips a +1/-1 pair, allocates other '
+                  'capacities, or counts with builtins the harness has no scheduling points for - then a `go` run executes the threads one after the other). NOT observed: the plain reads of `ref` in front of an atomic operation and the '
                   'plain reads of the payload other than Memory::copy / the container copy (their place in the order is tied only through the branch '
                   'they decide and through ASan when they hit released memory); the counter value of an `r` event is read by the harness in the same '
                   'scheduling segment as the library reads it, not by the library; events carry no block identity (the counter values returned tie '
@@ -437,9 +441,9 @@ class C09(Check):
                   'from the live payloads. One payload type per case (Variant: list, map, array or string; Xml::Variant: element or text): a write access '
                   'through the accessor of another type than the one stored (type-changing branch) is not driven; Xml::Variant text payloads have no '
                   'write accessor (value assignment only), element payloads no value assignment. Handles stored inside payloads are modelled for '
-                  'RefCount::Ptr (machine RcNest: a pointee type with a Ptr member, locations <variable, depth>, sequential only); the theorems about that machine are about the Model; that it computes the same objects, chains and destructions as the counter-free reference '
-                  'object (RcNest.pstep: after every operation the objects no handle refers to are destroyed, repeatedly) is validated by correspondence only; swap of member '
-                  'handles and handles travelling between threads are not in that machine; '
+                  'RefCount::Ptr (machine RcNest: a pointee type with a Ptr member, locations <variable, depth>, sequential only); its reference object is RcNest.pstep (a pointer graph without counters in which, after every operation, the objects no handle refers to are destroyed, '
+                  'repeatedly; proved independent of the order of destruction), refined by the Model over whole histories; swap of member handles and handles travelling '
+                  'between threads are not in that machine; '
                   'nested Variant payloads are driven only through viaelem; String/Variant constructors from literals (uncounted inline data) are '
                   'outside the model. The converting Ptr(const Ptr<D>&) / operator=(const Ptr<D>&) are driven in sequential cases only (kinds conv).')
     technique = ('machine-checked proof (Coq 8.16) about an executable model (sequential handle/block machine + machine with handles inside payloads + interleaving machine + trace acceptor) + differential '
@@ -465,9 +469,14 @@ class C09(Check):
     def run_impl(self, cases, tag='impl'):
         # chunks: a broken tree may crash on most cases of an exhaustive stream; every crash restarts the
         # harness and vf.py gives up after 400 restarts per call
+        # (a defect that crashes on a large part of an exhaustive stream: after 150 crashes the rest of the stream is
+        # not run - vf.py drops the cases marked `! notrun` - the failing inputs found so far are reported)
         res, crashes = [], {}
         step = 300
         for i in range(0, len(cases), step):
+            if len(crashes) > 150:
+                res += [['! notrun'] for _ in cases[i:i + step]]
+                continue
             r, c = run_exe_on_cases(self.exes['impl'], cases[i:i + step], os.path.join(BUILD, self.id, 'run'), tag, is_impl=True,
                                     per_case_timeout=self.per_case_timeout)
             res += r
@@ -590,7 +599,6 @@ class C09(Check):
         'live': 'LIVE-VS-HANDLES live payload blocks differ from the number of distinct payloads the live handles refer to ... ',
         'aux':  'PAYLOAD-PARTS   blocks allocated for payloads are not exactly those reachable from the live payloads ........ ',
         'after': 'LEAK-AFTER-JOIN blocks still allocated after every thread handle was destroyed ........................... ',
-        'trace': 'ACCESS-TRACE    the access trace of the implementation is not a run of the interleaving machine (RcConc.replay) ',
     }
 
     def judge(self, cases, impl_obs, spec_obs):
@@ -599,7 +607,6 @@ class C09(Check):
         for i, obs in enumerate(impl_obs):
             if i in bad or (cases[i] and cases[i][0].startswith('@nest')):
                 continue
-            model = self._model_by_key.get('\n'.join(cases[i]), [])
             for k, line in enumerate(obs):
                 if line.startswith('!') or line.startswith('?'):
                     continue
@@ -628,9 +635,10 @@ class C09(Check):
                 if len(sec) >= 5 and sec[4].startswith('after=') and sec[4] != 'after=0':
                     fails.append((i, k, self.TAGS['after'] + sec[4]))
                     break
-                if k < len(model) and model[k].startswith('! trace-'):
-                    fails.append((i, k, self.TAGS['trace'] + '%s ; trace: %s' % (model[k][2:], sec[5][6:300] if len(sec) > 5 else '')))
-                    break
+                # An access trace that RcConc.replay rejects (`! trace-...` printed by the model driver in place of the
+                # observation) is NOT judged here: it says that the implementation is not the modelled machine, not
+                # that the property fails.  The line differs from the implementation's, so vf.py reports the case as a
+                # break of the model/implementation correspondence (`no-failing-input-found`).
         return fails
 
     def nontrivial(self, case, obs):
